@@ -1,7 +1,8 @@
 ---------------------------- MODULE J5CompileMC ----------------------------
 EXTENDS J5Compile
-BasesQuick == {"single", "twofile", "twopkg", "twopkgfile"}
+BasesQuick == {"single", "svc", "twofile", "twopkg", "twopkgfile", "proto"}
 BasesSingle == {"single"}
+BasesProto == {"proto"}
 BasesSim == {"empty", "single", "onefile", "twofile", "twopkg"}
-BasesPairs == {"single", "twopkg"}
+BasesPairs == {"single", "svc", "twopkg"}
 =============================================================================
